@@ -258,6 +258,8 @@ def make_scenarios(rng, tier, focus, count):
             # nested use: cond's own environment already carries an outer task's COND_* variables (the slot value may coincide
             # with one this run hands out)
             scn["ambient"] = {"COND_SLOT": str(rng.randrange(0, max(1, jobs))), "COND_NAME": "outer"}
+        if focus == "slots" and k % 4 == 1 and jobs >= 2:
+            scn["affinity"], scn["affinity_n"] = "high", jobs + 1
         if focus == "deps" and k % 10 == 7:
             # one dependency listed twice under two spellings (":x" and "//pkg:x", "//pkg/:x"): such a definition must be
             # rejected - and if it is ever accepted, the dependency must still run once and never next to its dependent
